@@ -5,8 +5,8 @@ usage: evalseed.py <worktree> <n> <seed-id> [--props C01,C02,...] [--skip-confir
 
 1. confirmation in the sub-agent's scratch worktree (never /repo): with patch+demo the existing suite still
    passes and only the demonstration fails; with the demo alone (patch reverted) the demonstration passes;
-2. our checks: the patch (only) is applied to /repo, every claimed property's quick check is run, and /repo is
-   restored straight afterwards;
+2. our checks: the patch (only) is applied to the scratch worktree, every claimed property's quick check is run with
+   VERIF_REPO pointing there, and the worktree is restored straight afterwards (/repo is never touched);
 3. the seed is stored as /verif/seeded/<seed-id>/{patch.diff, demo.diff, meta.json}.
 """
 import json
@@ -64,23 +64,26 @@ def main():
     man = json.load(open(os.path.join(VERIF, "MANIFEST.json")))
     claimed = [c["property_id"] for c in man["checks"]]
     run = props or claimed
-    rc, out = sh("git -C /repo status --porcelain --untracked-files=no")
-    if out.strip():
-        print("refusing: /repo is dirty")
-        sys.exit(3)
-    rc, out = sh("git -C /repo apply %s" % patch)
+    # our checks run against the sub-agent's scratch worktree (VERIF_REPO) with their outputs redirected (VERIF_OUT),
+    # so neither /repo nor the registered build/evidence/replay files are touched
+    rc, out = sh("git checkout -- . && git clean -fdq -- src tests && git apply %s" % patch, cwd=wt)
     if rc != 0:
-        print("patch does not apply to /repo:", out)
+        print("patch does not apply:", out)
         sys.exit(3)
+    outd = "/tmp/evalseed_out_%s" % sid
+    env = dict(os.environ, VERIF_REPO=wt, VERIF_OUT=outd)
     try:
         for c in run:
-            rc, out = sh("python3 vcheck.py check %s" % c, cwd=VERIF)
+            pr = subprocess.run("python3 vcheck.py check %s" % c, shell=True, cwd=VERIF, capture_output=True, text=True, env=env)
+            rc, out = pr.returncode, pr.stdout + pr.stderr
             viol = re.findall(r"^VIOLATION property=(\S+) replay=(\S+)", out, re.M)
             rec["checks"][c] = {"exit": rc, "violations": [os.path.basename(v[1]) for v in viol],
                                 "undecided": re.findall(r"^  - (.*)", out, re.M)[:4] if rc == 2 else []}
             print(c, "exit", rc, [os.path.basename(v[1]) for v in viol][:4])
     finally:
-        sh("git -C /repo checkout -- .")
+        sh("git checkout -- . && git clean -fdq -- src tests", cwd=wt)
+        import shutil
+        shutil.rmtree(outd, ignore_errors=True)
     target = meta.get("property", "")[:3]
     rec["detected_by"] = [c for c, r in rec["checks"].items() if r["exit"] == 1]
     rec["undecided_in"] = [c for c, r in rec["checks"].items() if r["exit"] == 2]
